@@ -282,6 +282,89 @@ def okScanWin (directional : Bool) (n w step sp : Int) : Out Nat → Bool
   | .ok k => validScan directional n w step sp && decide (1 ≤ k) &&
       decide (sp + ((k : Int) - 1) * step + w ≤ n) && decide (n < sp + (k : Int) * step + w)
 
+/-! ### Sequence.append of two located pieces of one parent -/
+
+/-- what `a.append(b)` answered -/
+inductive AppendOut where
+  | data (len : Nat) (textOk : Bool)                                   -- data_only: no parent recorded
+  | located (len : Nat) (st : Strand) (blocks : List IBlk) (textOk : Bool)  -- textOk: text = pieces joined = reading of `blocks`
+  | unlocated (len : Nat) (textOk : Bool)
+  | refused
+  | internal
+
+/-- pieces `[a1,b1)` then `[a2,b2)` (both non-empty) read on strands st1 / st2: the documentation of `append` requires
+    equal directional strands and that the appended piece FOLLOWS the first one in reading direction without
+    overlapping it (plus: to its right; minus: to its left) -/
+def appendMustRefuse (st1 : Strand) (a1 b1 : Int) (st2 : Strand) (a2 b2 : Int) (dataOnly : Bool) : Bool :=
+  !dataOnly && (st1 != st2 || st1 == .unstranded || (st1 == .plus && decide (b1 > a2)) || (st1 == .minus && decide (a1 < b2)))
+
+def positionsOf (bs : List IBlk) : List Int :=
+  bs.flatMap (fun b => (List.range (b.2 - b.1).toNat).map (fun (i : Nat) => b.1 + (i : Int)))
+
+def insertSorted (x : Int) : List Int → List Int
+  | [] => [x]
+  | y :: ys => if x ≤ y then x :: y :: ys else y :: insertSorted x ys
+
+def sortInts (l : List Int) : List Int := l.foldr insertSorted []
+
+def okAppend (n : Nat) (st1 : Strand) (a1 b1 : Int) (st2 : Strand) (a2 b2 : Int) (dataOnly : Bool) : AppendOut → Bool
+  | .internal => false
+  | .refused => appendMustRefuse st1 a1 b1 st2 a2 b2 dataOnly
+  | .data len ok => dataOnly && ok && (len : Int) == (b1 - a1) + (b2 - a2)
+  | .unlocated _ _ => false                     -- located operands: the result must record a location (or be refused)
+  | .located len st bs ok =>
+      !dataOnly && !appendMustRefuse st1 a1 b1 st2 a2 b2 false && ok && st == st1 &&
+      (len : Int) == (b1 - a1) + (b2 - a2) &&                       -- nothing lost, nothing doubled
+      (len : Int) == totalLen bs &&                                  -- len(data) = len(parent.location)
+      bs.all (fun b => decide (0 ≤ b.1) && decide (b.1 ≤ b.2) && decide (b.2 ≤ (n : Int))) &&
+      sortInts (positionsOf bs) == sortInts (positionsOf [(a1, b1), (a2, b2)])
+
+/-! ### multi-operand operations over a pool of parent kinds -/
+
+/-- plain descriptor of a parent: present?, id, sequence type, sequence, grand-parent (numbers name distinct values) -/
+structure PD where
+  has : Bool
+  id : Option Nat
+  ty : Option Nat
+  seq : Option Nat
+  gp : Option Nat
+  deriving DecidableEq
+
+/-- the pool (same order as `impl_validate.parent_kind`): none; id; id+type; id+other type; id+sequence; id+other
+    sequence; id+grand-parent A; id+grand-parent B; no id, type X; no id, type Y -/
+def parentKinds : List PD :=
+  [⟨false, none, none, none, none⟩, ⟨true, some 0, none, none, none⟩, ⟨true, some 0, some 0, none, none⟩,
+   ⟨true, some 0, some 1, none, none⟩, ⟨true, some 0, none, some 0, none⟩, ⟨true, some 0, none, some 1, none⟩,
+   ⟨true, some 0, none, none, some 0⟩, ⟨true, some 0, none, none, some 1⟩, ⟨true, none, some 2, none, none⟩,
+   ⟨true, none, some 3, none, none⟩]
+
+def pdStrict (a b : PD) : Bool := decide (a = b)
+
+/-- `Parent.equals_except_location` is documented (DESIGN §3, C02/C04) to compare grand-parents only when both are
+    present: that much tolerance is accepted from the binary operations -/
+def pdTolerant (a b : PD) : Bool :=
+  a.has == b.has && a.id == b.id && a.ty == b.ty && a.seq == b.seq && (a.gp == b.gp || a.gp.isNone || b.gp.isNone)
+
+def allPairs (p : PD → PD → Bool) : List PD → Bool
+  | [] => true
+  | a :: rest => rest.all (p a) && allPairs p rest
+
+inductive GridOut where
+  | okWf | illformed | refused | internal
+
+/-- operands on incompatible parents must be refused; compatible ones must not be -/
+def pconsMustRefuse (op : String) (ks : List PD) : Bool :=
+  if op == "fsi" then !allPairs pdStrict ks
+  else match ks with
+    | [a, b] => if op == "mkpar" then a.has && b.has && !pdTolerant a b else !pdTolerant a b
+    | _ => false
+
+def okPcons (op : String) (ks : List PD) : GridOut → Bool
+  | .internal => false
+  | .illformed => false
+  | .refused => pconsMustRefuse op ks
+  | .okWf => !pconsMustRefuse op ks
+
 /-! ### grid lines: `ok wf` or a documented class -/
 
 def documented : List String :=
